@@ -579,9 +579,9 @@ func TestVerifC02(t *testing.T) {
 			depth int
 		}
 		walks := []walk{
+			{"string-escape(12)", c02Esc, 6},
 			{"program(30)", c02Wide, vk.Pick(c, 4, 5)},
 			{"program(20)", c02Prog, vk.Pick(c, 5, 6)},
-			{"string-escape(12)", c02Esc, vk.Pick(c, 6, 7)},
 			{"structural(12)", c02Core, vk.Pick(c, 6, 7)},
 		}
 		nFS := vk.Pick(c, 2, 3)
@@ -644,14 +644,20 @@ func TestVerifC02(t *testing.T) {
 				n++
 			}
 		}
+		phase := map[string]float64{}
+		t0 := time.Now()
 		c02FullStack(t, c, cases, viol)
+		phase["real-editor"] = time.Since(t0).Seconds()
 
 		tot := &c02Worker{}
 		for _, wk := range walks {
 			if wk.depth >= 2 {
+				t0 = time.Now()
 				c02Explore(c, wk.name, wk.alpha, wk.depth, viol, tot)
+				phase[wk.name] = time.Since(t0).Seconds()
 			}
 		}
+		c.Set("phase_wall_seconds", phase)
 		c.Set("enter_runs_with_cursor_not_at_end", tot.dotRuns)
 		c.Set("valid_programs", tot.valid)
 		c.Set("prefixes_of_valid_programs_judged", tot.prefixes)
